@@ -2,7 +2,7 @@
    the region is n copies of one padded tag between the header and the end tag.  The list-based model cannot run on
    such regions in reasonable time; `run_bigwalk` is the CLOSED FORM of what the model yields on them - proved for every
    n and every tag in Props/C03 (C03_big_walk, C03_big_run) - and is what the oracle evaluates for the domain bigwalk. *)
-Require Import Bytes Outcome Render Layout Common TagType Mbi Header HeaderTags.
+Require Import Bytes Outcome Render Layout Common TagType Mbi MbiTags MbiAccess Header HeaderTags.
 From Coq Require Import String List.
 Import ListNotations.
 Open Scope N_scope.
@@ -76,3 +76,30 @@ Definition run_hbigwalk (n : N) (tag : list byte) : list string :=
                        | Val None => "none"
                        | x => sRes (fun _ => "") x
                        end)) hbig_getters)%list.
+
+(* ---- ELF-sections tags with very many entries (2^16 and more): a boot information whose only tag holds n copies of one
+   section header (40 or 64 bytes, an in-use type); closed form of sections() and of the iteration (C19_big) -------- *)
+Open Scope N_scope.
+Definition elf_hdr20 (n es sh : N) : list byte := enc32 9 ++ enc32 (20 + n * es) ++ enc32 n ++ enc32 es ++ enc32 sh.
+Definition elf_big_tag (n : nat) (es sh : N) (entry : list byte) : list byte :=
+  elf_hdr20 (N.of_nat n) es sh ++ concat (repeat entry n) ++ [x00; x00; x00; x00].
+Definition elf_big_region (n : nat) (es sh : N) (entry : list byte) : list byte := big_region 1 (elf_big_tag n es sh entry).
+(* the j-th section the iterator yields: the entry at 28 + j*es *)
+Definition elf_big_section (n : nat) (es sh : N) (j : nat) : elf_section :=
+  {| es_inner := 28 + N.of_nat j * es; es_str := 28 + (if N.of_nat n =? 0 then 0 else sh * es); es_es := es |}.
+
+Open Scope string_scope.
+(* bigelf <n> <shndx> <entry>: entry = one section header of 40 or 64 bytes whose type is in use *)
+Definition run_bigelf (n sh : N) (entry : list byte) : list string :=
+  let es := len entry in
+  let ty := le (slice entry 4 4) in
+  if negb (((es =? 40)%N || (es =? 64)%N) && negb (is_unused (elf_section_type ty)) && (44 + n * es <? pow2_32)%N && (sh <? pow2_32)%N)
+  then ["BADARGS"] else
+  let head := "number_of_sections=" ++ sN n ++ " entry_size=" ++ sN es ++ " shndx=" ++ sN sh in
+  if (n =? 0)%N || (sh <? n)%N then
+    [ line "elf" (head ++ " sections=VAL rem=" ++ sN n);
+      line "elf_count" ("VAL " ++ sN n);
+      line "elf_last" ("VAL " ++ (if (n =? 0)%N then "none" else sN (28 + (n - 1) * es)));
+      line "elf_nth" (sN (n - 1) ++ " VAL " ++ (if (n =? 0)%N then "none" else sN (28 + (n - 1) * es)));
+      line "elf_nth" (sN n ++ " VAL none") ]
+  else [ line "elf" (head ++ " sections=PANIC") ].
